@@ -23,7 +23,7 @@
    including the defect F7 (old facts pushed through a new morphism arrive as old tuples).
 
    No proofs in this file. *)
-From Coq Require Import List NArith Bool.
+From Coq Require Import List BinNat Bool.
 Import ListNotations.
 Open Scope N_scope.
 
